@@ -10,6 +10,11 @@ so parsing and `sort_records` are inside the tie):
   geneseq txseq orf sec                        sequences, ORF start/end, selenocysteine
   exonic upend downstart findexon findintron   helper look-ups (internal streams)
   cache                                        access histories against the pointer caches
+  gtfparse0 gtfwrite gtfparse1 gtfrt gtfwf gtfwf1 gtfline   the GTF codec model (Model/Gtf.lean):
+      real dump_gtf vs parseGtf on the generated text and on the text GtfIO.write produced, real
+      GtfIO.write vs writeGtf line by line, real write->parse vs the Lean composition, the
+      well-formedness predicates of the theorems evaluated on the real models, fuzzed single
+      lines through line_to_seq_feature, hand-made edge annotations
 Direct predicates on the real outputs (no model involved):
   inverse maps, pointwise sequences, ORF start vs CDS, on-disk == fully parsed for every key
   under random access orders, write -> parse round trip.
@@ -336,6 +341,7 @@ def load_all(a: Anno, tmp: str, rng):
     L.genome.dump_fasta(fa_path)
     L.full = gtf.GenomicAnnotation()
     L.full.dump_gtf(gtf_path)
+    L.items0 = anno_items(L.full)       # as parsed, before check_protein_coding
     L.raw = gtf.GenomicAnnotationOnDisk()
     L.raw.generate_index(gtf_path)
     # proteome: random subset of the coding transcripts, some with an internal stop
@@ -835,10 +841,354 @@ def cache_stream(ctx, a, L, rng, case_id, S, viol):
         GTFPointer.GENE_DICT_CACHE_SIZE, GTFPointer.TX_DICT_CACHE_SIZE = old
 
 
+
+# ------------------------------------------------------------------ GTF codec (Model/Gtf.lean)
+SEP = '\x1f'          # stands for the tab inside a protocol argument
+GTF_STREAMS = ['gtfparse0', 'gtfwrite', 'gtfparse1', 'gtfrt', 'gtfrtn', 'gtfwf', 'gtfwf1', 'gtfline']
+GTF_WHAT = {
+    'gtfrtn': 'GtfIO.write -> dump_gtf differs from the proved round trip of the model '
+             '(Props.C11.gtf_roundtrip): a model changes when written and parsed back',
+}
+
+
+def _esc(s):
+    return ''.join(c if (c.isascii() and c.isalnum()) or c in '_.:-' else f'%{ord(c)}%'
+                   for c in s)
+
+
+def _opt(v):
+    return '!' if v is None else '=' + _esc(v)
+
+
+def rec_code(f):
+    st = {1: '+', -1: '-', 0: '?', None: '.'}[f.location.strand]
+    at = []
+    for k, v in f.attributes.items():
+        if isinstance(v, list):
+            at.append(_esc(k) + '*' + '+'.join(_esc(x) for x in v))
+        else:
+            at.append(_esc(k) + '=' + _esc(v))
+    return ','.join([_esc(f.chrom), _esc(f.type), str(int(f.location.start)),
+                     str(int(f.location.end)), st, '.' if f.frame is None else str(f.frame),
+                     '&'.join(at)])
+
+
+def anno_items(anno):
+    """canonical encoding of a GenomicAnnotation = Driver/Gtf.lean `annoCode` (dict orders kept)"""
+    items = []
+    for gid, gm in anno.genes.items():
+        items.append('~'.join(['G', _esc(gid), rec_code(gm),
+                               ';'.join(_esc(t) for t in gm.transcripts)]))
+    for tid, m in anno.transcripts.items():
+        ipc = {None: '!', True: '1', False: '0'}[m.is_protein_coding]
+        lists = [m.cds, m.exon, m.start_codon, m.stop_codon, m.utr, m.five_utr, m.three_utr,
+                 m.selenocysteine]
+        items.append('~'.join(
+            ['T', _esc(tid), '!' if m.transcript is None else rec_code(m.transcript), ipc,
+             _opt(m.transcript_id), _opt(m.gene_id), _opt(m.protein_id), _opt(m.gene_name)]
+            + [';'.join(rec_code(x) for x in l) for l in lists]))
+    return items
+
+
+def erase_items(items):
+    """the normal form compared by the round-trip theorem: attribute dicts of the records in
+    the eight lists dropped (transcript record, flag, ids, gene models kept)"""
+    out = []
+    for it in items:
+        f = it.split('~')
+        if f[0] == 'T':
+            for i in range(8, 16):
+                f[i] = ';'.join(','.join(r.split(',')[:6] + ['']) for r in f[i].split(';')) if f[i] else ''
+        out.append('~'.join(f))
+    return out
+
+
+def canon_items(items):
+    """transcript items re-listed gene by gene (Lean `Anno.canon`)"""
+    genes = [it for it in items if it.startswith('G~')]
+    txs = {it.split('~')[1]: it for it in items if it.startswith('T~')}
+    out = list(genes)
+    for g in genes:
+        tids = g.split('~')[3]
+        for t in (tids.split(';') if tids else []):
+            if t in txs:
+                out.append(txs[t])
+    return out
+
+
+def real_parse(text_or_lines):
+    """GenomicAnnotation().dump_gtf on a text -> canonical items or the exception class"""
+    from moPepGen import gtf
+    anno = gtf.GenomicAnnotation()
+    try:
+        anno.dump_gtf(io.StringIO(text_or_lines))
+    except ValueError as e:
+        msg = str(e)
+        if msg.startswith('Same gene has multiple records'):
+            return None, 'err:ValueError:dup-gene'
+        if msg.startswith('Gene ID'):
+            return None, 'err:ValueError:gene-not-found'
+        if msg.startswith('UTR found but not CDS'):
+            return None, 'err:ValueError:utr-no-cds'
+        if 'values to unpack' in msg or msg.startswith('End location'):
+            return None, 'err:ValueError:line'
+        return None, 'crash:ValueError'
+    except AttributeError:
+        return None, 'err:AttributeError'
+    except Exception as e:       # noqa
+        return None, 'crash:' + type(e).__name__
+    return anno, '\t'.join(anno_items(anno))
+
+
+def text_arg(text):
+    return '\t'.join(ln.replace('\t', SEP) for ln in text.split('\n') if ln != '')
+
+
+def gtf_codec(ctx, a, L, S, case_id, viol):
+    """tie of the GTF codec model: the real parser / writer and the Lean parser / writer run on
+    the same texts and models; direct predicates: the theorem's conclusion on the real outputs"""
+    from moPepGen.gtf import GtfIO
+    obj = (case_id, 'gtf-codec', None)
+    # (1) the generated text: real dump_gtf (captured before check_protein_coding) vs parseGtf
+    S['gtfparse0'].append(('C11\tgtfparse\t' + text_arg(a.gtf_text()),
+                           '\t'.join(L.items0), obj))
+    # (2) the loaded models (coding flags set): real GtfIO.write vs writeGtf
+    items = anno_items(L.full)
+    enc = '\t'.join(items)
+    buf = io.StringIO()
+    GtfIO.write(buf, L.full)
+    text = buf.getvalue()
+    S['gtfwrite'].append(('C11\tgtfwrite\t' + enc, '\x1e'.join(text.rstrip('\n').split('\n')), obj))
+    # (3) the written text: real dump_gtf vs parseGtf
+    rt, rt_code = real_parse(text)
+    S['gtfparse1'].append(('C11\tgtfparse\t' + text_arg(text), rt_code, obj))
+    # (4) the composition on the model: real write -> parse vs Lean parseGtf (writeGtf model):
+    #     gtfrt everything (attribute dicts of all records included; internal), gtfrtn the normal
+    #     form the theorem gtf_roundtrip speaks about (observable)
+    S['gtfrt'].append(('C11\tgtfrt\t' + enc, rt_code, obj))
+    S['gtfrtn'].append(('C11\tgtfrtn\t' + enc, rt_code if rt is None else
+                        '\t'.join(erase_items(anno_items(rt))), obj))
+    # (5) loader output satisfies the hypotheses of the theorems
+    S['gtfwf'].append(('C11\tgtfwf0\t' + enc, 'wf=1,ordered=1,text=1', obj))
+    ctx.count('gtfcodec', 'annotations')
+    if rt is None:
+        viol('GTF written by GtfIO.write cannot be parsed back: ' + rt_code, {'written_gtf': text[:6000]})
+        return
+    rt_items = anno_items(rt)
+    S['gtfwf1'].append(('C11\tgtfwf\t' + '\t'.join(rt_items), 'wf=1,ordered=1,text=1,stable=1', obj))
+    # direct predicates (no model): the conclusion of gtf_roundtrip on the real outputs …
+    if erase_items(rt_items) != erase_items(canon_items(items)):
+        x, y = erase_items(canon_items(items)), erase_items(rt_items)
+        bad = [(p, q) for p, q in zip(x, y) if p != q][:1] or [(len(x), len(y))]
+        viol('write->parse changes a model (all fields of the normal form: gene records with '
+             'attributes and transcript lists, transcript record with attributes, coding flag, '
+             'ids, the eight record lists with chromosome, type, interval, strand, frame)',
+             {'before': bad[0][0], 'after': bad[0][1]})
+        return
+    # the inferred `source` of the records is outside the Lean model (a function of the chromosome
+    # names); checked here on the real objects: it selects the attribute `biotype` reads
+    for k, m0 in L.full.transcripts.items():
+        m1 = rt.transcripts[k]
+        if m0.transcript.source != m1.transcript.source:
+            viol('the inferred annotation source of a transcript record changes on write->parse',
+                 {'key': k, 'before': m0.transcript.source, 'after': m1.transcript.source})
+            break
+    # … and of gtf_roundtrip_exact: a second round trip is the identity, attributes included
+    buf2 = io.StringIO()
+    GtfIO.write(buf2, rt)
+    rt2, rt2_code = real_parse(buf2.getvalue())
+    if rt2_code != rt_code:
+        viol('a second write->parse is not the identity (attribute dicts included)',
+             {'first': rt_code[:3000], 'second': rt2_code[:3000]})
+    if rt2 is not None:
+        buf3 = io.StringIO()
+        GtfIO.write(buf3, rt2)
+        if buf3.getvalue() != buf2.getvalue():
+            viol('the text written after two round trips differs from the text written after one',
+                 {'first': buf2.getvalue()[:3000], 'second': buf3.getvalue()[:3000]})
+    if buf2.getvalue() != text:
+        # expected for a freshly loaded file: add_record copies the ids of the model onto every
+        # later record, so the attribute dicts of the records depend on the record order of the file
+        ctx.count('gtfcodec', 'first_written_text_differs_from_second')
+
+
+KF_EMPTY = 'gtf-write-empty-attribute-value'
+KF_STRAND0 = 'gtf-write-unknown-strand'
+
+
+def _gl(chrom, typ, s, e, strand, frame, attrs):
+    return '\t'.join([chrom, 'X', typ, str(s), str(e), '.', strand, frame, attrs])
+
+
+def edge_texts():
+    """hand-made annotations at the edges of the well-formedness predicates"""
+    g = 'gene_id "G1"; gene_type "protein_coding"; gene_name "N1";'
+    t = 'gene_id "G1"; transcript_id "T1"; gene_type "protein_coding"; gene_name "N1";'
+    g2 = 'gene_id "G2"; gene_type "lncRNA";'
+    t2 = 'gene_id "G2"; transcript_id "T2"; gene_type "lncRNA";'
+    base = [_gl('chr1', 'gene', 1, 100, '+', '.', g), _gl('chr1', 'transcript', 1, 100, '+', '.', t),
+            _gl('chr1', 'exon', 1, 40, '+', '.', t), _gl('chr1', 'exon', 61, 100, '+', '.', t)]
+    cds = [_gl('chr1', 'CDS', 11, 40, '+', '0', t + ' protein_id "P1";'),
+           _gl('chr1', 'CDS', 61, 80, '+', '0', t + ' protein_id "P1";')]
+    out = {
+        'plain': base,
+        'empty-value': [_gl('chr1', 'gene', 1, 100, '+', '.', 'gene_id "G1"; gene_name "";')],
+        'strand-unknown': [_gl('chr1', 'gene', 1, 100, '?', '.', g),
+                           _gl('chr1', 'transcript', 1, 100, '?', '.', t),
+                           _gl('chr1', 'exon', 1, 40, '?', '.', t)],
+        'strand-none': [_gl('chr1', 'gene', 1, 100, '.', '.', g),
+                        _gl('chr1', 'transcript', 1, 100, '.', '.', t),
+                        _gl('chr1', 'exon', 1, 40, '.', '.', t)],
+        'inner-spaces-and-quote': [_gl('chr1', 'gene', 1, 100, '-', '.',
+                                       'gene_id "G1"; gene_name "A B  C"; gene_type "x"y";')],
+        'interleaved': [_gl('chr1', 'gene', 1, 100, '+', '.', g), _gl('chr1', 'gene', 201, 300, '-', '.', g2),
+                        _gl('chr1', 'transcript', 201, 300, '-', '.', t2),
+                        _gl('chr1', 'transcript', 1, 100, '+', '.', t),
+                        _gl('chr1', 'exon', 201, 300, '-', '.', t2), _gl('chr1', 'exon', 1, 100, '+', '.', t)],
+        'ensembl-order': [_gl('1', 'gene', 1, 100, '+', '.', 'gene_id "G1"; gene_biotype "protein_coding";'),
+                          _gl('1', 'transcript', 1, 100, '+', '.', 'gene_id "G1"; transcript_id "T1";'),
+                          _gl('1', 'exon', 1, 100, '+', '.', 'gene_id "G1"; transcript_id "T1";'),
+                          _gl('1', 'CDS', 1, 90, '+', '0', 'gene_id "G1"; transcript_id "T1"; protein_id "P1";'),
+                          _gl('1', 'five_prime_utr', 1, 0, '+', '.', 'gene_id "G1"; transcript_id "T1";'),
+                          _gl('1', 'three_prime_utr', 94, 100, '+', '.', 'gene_id "G1"; transcript_id "T1";'),
+                          _gl('1', 'stop_codon', 91, 93, '+', '0', 'gene_id "G1"; transcript_id "T1";')],
+        'utr-without-cds': base + [_gl('chr1', 'UTR', 1, 10, '+', '.', t)],
+        'no-transcript-record': [base[0], base[2], base[3]],
+        'duplicate-gene': [base[0], base[0]],
+        'exon-before-gene': [base[2], base[0]],
+        'mixed-utr': base + cds + [_gl('chr1', 'UTR', 1, 10, '+', '.', t),
+                                   _gl('chr1', 'five_prime_utr', 1, 10, '+', '.', t),
+                                   _gl('chr1', 'UTR', 81, 100, '+', '.', t),
+                                   _gl('chr1', 'three_prime_utr', 84, 100, '+', '.', t)],
+        'two-transcript-records': base + [_gl('chr1', 'transcript', 1, 90, '+', '.', t + ' tag "basic";')],
+        'unknown-features': base + [_gl('chr1', 'intron', 41, 60, '+', '.', t),
+                                    _gl('chr1', 'Exon', 45, 50, '+', '.', t)],
+        'tags': [base[0], _gl('chr1', 'transcript', 1, 100, '+', '.',
+                              t + ' tag "basic"; tag "cds_start_NF"; tag "mRNA_end_NF"; protein_id "P9";')]
+        + base[2:] + cds,
+        'equal-locations': base + cds + [_gl('chr1', 'CDS', 11, 40, '+', '1', t + ' tag "second";')],
+        'minus-gencode-utr': [_gl('chrX', 'gene', 1, 100, '-', '.', g), _gl('chrX', 'transcript', 1, 100, '-', '.', t),
+                              _gl('chrX', 'UTR', 1, 10, '-', '.', t), _gl('chrX', 'UTR', 81, 100, '-', '.', t),
+                              _gl('chrX', 'exon', 1, 40, '-', '.', t), _gl('chrX', 'exon', 61, 100, '-', '.', t),
+                              _gl('chrX', 'CDS', 61, 80, '-', '0', t), _gl('chrX', 'CDS', 11, 40, '-', '2', t)],
+    }
+    return {k: '\n'.join(v) + '\n' for k, v in out.items()}
+
+
+def real_write(anno):
+    from moPepGen.gtf import GtfIO
+    buf = io.StringIO()
+    try:
+        GtfIO.write(buf, anno)
+    except AttributeError:
+        return None, 'err:AttributeError'
+    except KeyError:
+        return None, 'err:KeyError'
+    except Exception as e:     # noqa
+        return None, 'crash:' + type(e).__name__
+    return buf.getvalue(), '\x1e'.join(buf.getvalue().rstrip('\n').split('\n'))
+
+
+def gtf_edge(ctx, S):
+    """the codec streams on the hand-made edge annotations; the round-trip predicate is evaluated
+    on the real outputs; the two known exceptions are matched by their signature"""
+    for name, text in sorted(edge_texts().items()):
+        obj = ('E:' + name, 'gtf-edge', text)
+        a0, code0 = real_parse(text)
+        S['gtfparse0'].append(('C11\tgtfparse\t' + text_arg(text), code0, obj))
+        ctx.count('gtfcodec', 'edge_cases')
+        if a0 is None:
+            continue
+        items = anno_items(a0)
+        enc = '\t'.join(items)
+        wtext, wcode = real_write(a0)
+        S['gtfwrite'].append(('C11\tgtfwrite\t' + enc, wcode, obj))
+        if wtext is None:
+            S['gtfrt'].append(('C11\tgtfrt\t' + enc, wcode, obj))
+            S['gtfrtn'].append(('C11\tgtfrtn\t' + enc, wcode, obj))
+            continue
+        rt, rt_code = real_parse(wtext)
+        S['gtfparse1'].append(('C11\tgtfparse\t' + text_arg(wtext), rt_code, obj))
+        S['gtfrt'].append(('C11\tgtfrt\t' + enc, rt_code, obj))
+        S['gtfrtn'].append(('C11\tgtfrtn\t' + enc, rt_code if rt is None else
+                            '\t'.join(erase_items(anno_items(rt))), obj))
+        rp = {'edge_case': name, 'gtf': text, 'written_gtf': wtext}
+        if rt is None:
+            empty = any(v == '' for f in list(a0.genes.values())
+                        + [m.transcript for m in a0.transcripts.values() if m.transcript is not None]
+                        for v in f.attributes.values() if isinstance(v, str))
+            ctx.add_violation('GTF written by GtfIO.write cannot be parsed back: ' + rt_code, rp,
+                              finding_key=KF_EMPTY if (empty and rt_code == 'err:ValueError:line')
+                              else None)
+            continue
+        x, y = erase_items(canon_items(items)), erase_items(anno_items(rt))
+        if x != y:
+            # signature of the strand finding: the two encodings differ only in strand fields
+            # that were `?` (0) before and are `.` (None) after
+            only_strand = len(x) == len(y) and all(
+                p == q or p.replace(',?,', ',.,') == q for p, q in zip(x, y))
+            bad = [(p, q) for p, q in zip(x, y) if p != q][:1] or [(len(x), len(y))]
+            rp.update({'before': bad[0][0], 'after': bad[0][1]})
+            ctx.add_violation('write->parse changes a model (edge annotation)', rp,
+                              finding_key=KF_STRAND0 if only_strand else None)
+
+
+def gtf_line_fuzz(ctx, S):
+    """single lines with fuzzed strand / frame / coordinates / attribute column through the real
+    GtfIO.line_to_seq_feature and the Lean colParse + lineToRec"""
+    from moPepGen.gtf import GtfIO
+    keys = ['gene_id', 'transcript_id', 'protein_id', 'gene_name', 'gene_type', 'gene_biotype',
+            'tag', 'tag', 'is_protein_coding', 'level', 'exon_number', 'transcript_type', 'Tag']
+    vals = ['ENSG01.1', 'ENST07', 'basic', 'cds_start_NF', 'protein coding', 'a b  c', 'x', '1',
+            'true', 'A"B', '', 'q;', "it's"]
+    n = ctx.n(1500, 20000)
+    for i in range(n):
+        rng = ctx.rng('gtfline', i)
+        fields = [rng.choice(['chr1', '17', 'X', 'GL000.1']), rng.choice(['HAVANA', '.']),
+                  rng.choice(['gene', 'transcript', 'exon', 'CDS', 'cds', 'UTR', 'Exon',
+                              'Selenocysteine', 'start_codon', 'five_prime_utr', 'intron']),
+                  '', '', '.', rng.choice(['+', '-', '?', '.', '*', '', '+-']),
+                  rng.choice(['.', '0', '1', '2']), '']
+        st = rng.randint(1, 60)
+        en = st - 1 + rng.choice([0, 1, 1, 3, 10]) if rng.random() < 0.9 else rng.randint(0, st)
+        fields[3], fields[4] = str(st), str(en)
+        parts = []
+        for _ in range(rng.choice([1, 2, 3, 3, 4, 6])):
+            k, v = rng.choice(keys), rng.choice(vals)
+            x = rng.random()
+            if x < 0.55:
+                v = '"' + v + '"'
+            elif x < 0.62:
+                v = '""' + v + '"'
+            elif x < 0.7:
+                v = v + '"'
+            y = rng.random()
+            if y < 0.06:
+                parts.append(k)                      # no value: unpacking fails
+            elif y < 0.12:
+                parts.append(k + '  ' + v)           # two spaces: value keeps a leading space
+            else:
+                parts.append(k + ' ' + v)
+        sep = rng.choice(['; ', ';', ' ;', '; ', '; \x0b'])
+        col = rng.choice(['', ' ', '  ']) + sep.join(parts) + rng.choice([';', ';', '', ';;', '; ', ' ;'])
+        fields[8] = col
+        line = '\t'.join(fields) + rng.choice(['', '', ' ', '\r'])
+        try:
+            real = rec_code(GtfIO.line_to_seq_feature(line))
+        except ValueError as e:
+            msg = str(e)
+            real = 'err:ValueError:line' if ('values to unpack' in msg or
+                                             msg.startswith('End location')) else 'crash:ValueError'
+        except Exception as e:     # noqa
+            real = 'crash:' + type(e).__name__
+        S['gtfline'].append(('C11\tgtfline\t' + line.replace('\t', SEP), real, (f'L{i}', 'gtfline', line)))
+
+
 STREAMS = ['g2gene', 'gene2g', 'geneseq', 'txidx', 'tx2g', 'gene2tx', 'tx2gene', 'txseq', 'orf',
-           'sec', 'txlen', 'exonic', 'upend', 'downstart', 'findexon', 'findintron', 'cache']
+           'sec', 'txlen', 'exonic', 'upend', 'downstart', 'findexon', 'findintron', 'cache'] \
+    + GTF_STREAMS
 OBSERVABLE = {'g2gene', 'gene2g', 'geneseq', 'txidx', 'tx2g', 'gene2tx', 'tx2gene', 'txseq',
-              'orf', 'sec'}
+              'orf', 'sec', 'gtfrtn'}
 WHAT = {
     'g2gene': 'coordinate_genomic_to_gene differs from the proved map',
     'gene2g': 'coordinate_gene_to_genomic differs from the proved map',
@@ -851,6 +1201,7 @@ WHAT = {
     'orf': 'ORF start/end differ from the CDS / 3\'UTR features',
     'sec': 'selenocysteine positions differ from the Sec features',
 }
+WHAT.update(GTF_WHAT)
 
 
 def process_case(ctx, case_id, S, a, rng, do_cache=True):
@@ -868,6 +1219,7 @@ def process_case(ctx, case_id, S, a, rng, do_cache=True):
         check_parse(a, L, viol)
         compare_models(ctx, a, L, rng, case_id, viol)
         roundtrip(ctx, a, L, viol)
+        gtf_codec(ctx, a, L, S, case_id, viol)
         if do_cache:
             cache_stream(ctx, a, L, rng, case_id, S, viol)
     except Exception as e:      # noqa
@@ -908,6 +1260,8 @@ def flush(ctx, S, annos):
                     r, _dq, cached = o.split('|')
                     oks = {x for x in r.split(',') if x.isdigit()}
                     return len(oks) > len([x for x in cached.split(',') if x]) or 'K' in r or 'L' in r
+            elif s in GTF_STREAMS:
+                nt = lambda o: not o.startswith(('err:', 'crash:'))
             elif s == 'gene2g':
                 nt = lambda o: True          # every batch runs past the 3' end of the gene
             elif s == 'orf':
@@ -955,7 +1309,15 @@ def run(ctx: common.Ctx):
         'genome; EVERY genomic position of every gene +-3 and every gene/transcript index +3 is '
         'queried for every coordinate function (exhaustive per annotation); cache histories of '
         '10-60 accesses with bound 1..10 and, in 35% of them, unknown keys; non-trivial = a batch '
-        'result that contains both mapped values and at least one rejection class')
+        'result that contains both mapped values and at least one rejection class; GTF codec: '
+        'every generated annotation (text as generated with shuffled record orders, and the text '
+        'written by GtfIO.write after check_protein_coding) through the real and the Lean parser / '
+        'writer, all fields and attribute dicts compared in dict order; 1500 (20000) fuzzed lines '
+        '(strand / frame / coordinates / attribute column with quotes, double spaces, missing '
+        'values, stray separators); 17 hand-made edge annotations (empty value, strand ? and ., '
+        'interleaved transcripts, ENSEMBL record order, UTR without CDS, no transcript record, '
+        'duplicate gene, exon before gene, mixed UTR styles, two transcript records, unknown '
+        'features, equal locations)')
     ctx.coverage['exhaustive'] = False
     ctx.coverage['exhaustive_per_annotation'] = True
     S = {s: [] for s in STREAMS}
@@ -978,12 +1340,19 @@ def run(ctx: common.Ctx):
             flush(ctx, S, annos)
             annos.clear()
     malformed(ctx, S, annos, 100000)
+    gtf_line_fuzz(ctx, S)
+    gtf_edge(ctx, S)
     flush(ctx, S, annos)
     ctx.assumptions += [
         'the GTF file is not modified while an on-disk annotation is open (load is a function of the key)',
         'Bio.Seq slicing / reverse_complement on the alphabet ACGTN (modelled by List.drop/take and `complement`)',
         'unstranded features and negative query positions are outside the model',
         'gene.transcripts of the on-disk gene model is compared as a set (it is built from a Python set)',
+        'GTF codec: tab splitting / int() / str() of the columns are done by the driver, not modelled; '
+        'str.lower() and str.strip() on ASCII (white space table of Model/Gvf.lean); the inferred '
+        'record source (GENCODE/ENSEMBL) is outside the model and compared on the real objects only; '
+        'object identity of UTR records shared between utr and five_utr/three_utr is modelled by the '
+        'record type (UTR vs five_prime_utr/three_prime_utr)',
     ]
 
 
